@@ -49,6 +49,14 @@ func contractMentions(ct *Contract, prop string) bool {
 }
 
 func verifyFunction(P *Program, S *Specs, ct *Contract) *FuncResult {
+	return verifyFunctionAs(P, S, ct, nil, nil)
+}
+
+// verifyFunctionAs verifies fn (default: the function the contract names)
+// against ct. With implType != nil the contract is an interface-method contract
+// and fn the method of implementor implType: the contract's first parameter
+// name denotes the receiver boxed as an interface value (conformance check).
+func verifyFunctionAs(P *Program, S *Specs, ct *Contract, fnOverride *ssa.Function, implType types.Type) *FuncResult {
 	vc := newVC(P, S)
 	res := &FuncResult{Key: ct.Key, VC: vc}
 	defer func() {
@@ -61,6 +69,9 @@ func verifyFunction(P *Program, S *Specs, ct *Contract) *FuncResult {
 		}
 	}()
 	fn := P.Funcs[ct.Key]
+	if fnOverride != nil {
+		fn = fnOverride
+	}
 	if fn == nil {
 		vc.obls = append(vc.obls, &Obligation{Name: ct.Key + "/contract-binding", Props: ct.Props, Kind: "contract-binding", Fn: ct.Key,
 			Goal: "false", Reach: "true", Src: "contract names a function that does not exist in the tree", Status: "unbound", vc: vc})
@@ -87,6 +98,23 @@ func verifyFunction(P *Program, S *Specs, ct *Contract) *FuncResult {
 		fr.typed(v)
 	}
 	fr.entry = entry
+	if implType != nil {
+		fr.aliases = map[string]Val{}
+		names := ct.Params
+		if len(names) == 0 {
+			names = []string{"this"}
+		}
+		for i, n := range names {
+			if i >= len(fr.params) {
+				break
+			}
+			if i == 0 {
+				fr.aliases[n] = Val{Typ: implIfaceType(ct, P), L: []string{vc.typeTag(implType), fr.payload(fr.params[0], implType)}}
+			} else {
+				fr.aliases[n] = fr.params[i]
+			}
+		}
+	}
 	env := fr.envAt(entry, entry.heap, "requires of "+ct.Key)
 	for _, rq := range ct.Requires {
 		vc.assert(env.evalAssume(rq.E).T())
@@ -169,13 +197,57 @@ func (fr *Frame) envAt(st *State, old *Heap, what string) *Env {
 	e := &Env{vc: fr.vc, fr: fr, vars: map[string]Val{}, heap: st.heap, old: old, now: st.now, what: what}
 	if fr.fn.Pkg != nil {
 		e.pkg = fr.fn.Pkg.Pkg
+	} else if fr.top.contract != nil {
+		e.pkg = fr.contractPkg(fr.top.contract)
 	}
 	for i, p := range fr.fn.Params {
 		if i < len(fr.params) {
 			e.vars[p.Name()] = fr.params[i]
 		}
 	}
+	for k, v := range fr.aliases {
+		e.vars[k] = v
+	}
 	return e
+}
+
+// implIfaceType: the interface type an "iface pkg.I.m" contract belongs to.
+func implIfaceType(ct *Contract, P *Program) types.Type {
+	k := strings.TrimPrefix(ct.Key, "iface ")
+	i := strings.LastIndex(k, ".")
+	if i < 0 {
+		return nil
+	}
+	return P.TypesByName[k[:i]]
+}
+
+// verifyConformance: every repository implementor of the interface of an
+// iface contract marked `conforms` satisfies that contract.
+func verifyConformance(P *Program, S *Specs, ct *Contract, prop string) []*FuncResult {
+	var out []*FuncResult
+	it := implIfaceType(ct, P)
+	if it == nil {
+		return nil
+	}
+	k := strings.TrimPrefix(ct.Key, "iface ")
+	mname := k[strings.LastIndex(k, ".")+1:]
+	tmp := newVC(P, S)
+	for _, T := range tmp.implementors(it) {
+		m := P.SSA.LookupMethod(T, it.(*types.Named).Obj().Pkg(), mname)
+		if m == nil {
+			continue
+		}
+		c2 := *ct
+		c2.Key = ct.Key + " @ " + tmp.typeName(T)
+		c2.NoBody = false
+		c2.Trusted = false
+		r := verifyFunctionAs(P, S, &c2, m, T)
+		for _, o := range r.Obls {
+			o.Name = "conforms/" + tmp.typeName(T) + "/" + o.Name
+		}
+		out = append(out, r)
+	}
+	return out
 }
 
 // frameObligations: every family that may have changed between entry and this
